@@ -143,6 +143,19 @@ package placement
 //@   loop 1 invariant len(w.bestFit.OrphanPeers) <= rangeindex + 1 && (len(w.bestFit.OrphanPeers) == 0 <==> (forall j :: 0 <= j && j <= rangeindex ==> w.peers[j].selected))
 //@   modifies w.bestFit.OrphanPeers
 
+// compareRule orders rules by (group index, group id, index, id): the sign of the result follows the first component
+// that differs - for ALL index values (a comparison by subtraction would wrap for indexes far apart).
+//@ pure grpIdx(r *Rule) = ite(r.group != nil, r.group.Index, 0)
+//@ func compareRule
+//@   props C13
+//@   requires a != nil && b != nil
+//@   ensures [group-index-first] grpIdx(a) < grpIdx(b) ==> result < 0
+//@   ensures [group-index-first-gt] grpIdx(a) > grpIdx(b) ==> result > 0
+//@   ensures [then-index] grpIdx(a) == grpIdx(b) && a.GroupID == b.GroupID && a.Index < b.Index ==> result < 0
+//@   ensures [then-index-gt] grpIdx(a) == grpIdx(b) && a.GroupID == b.GroupID && a.Index > b.Index ==> result > 0
+//@   ensures [equal-keys] grpIdx(a) == grpIdx(b) && a.GroupID == b.GroupID && a.Index == b.Index && a.ID == b.ID ==> result == 0
+//@   modifies nothing
+
 // ================= C13: rule updates are all-or-nothing, the applied rule set is validated =================
 
 // A rule set is applicable iff it never holds more than one leader replica and holds at least one leader or
